@@ -3,7 +3,8 @@
 
 1. confirms the mutant in a scratch worktree outside /repo and /verif: the patch applies to HEAD, the package builds, the
    existing suite passes with it, the demonstration test fails with it and passes without it;
-2. applies the patch to /repo, runs the quick checks of the given properties, and undoes it straight afterwards;
+2. runs the quick checks of the given properties against that scratch worktree (VERIF_REPO; /repo itself is never touched, so that
+   other runs reading /repo are not disturbed);
 3. keeps the mutant as /verif/seeded/<seeded id>/ (patch.diff, zz_demo_test.go, notes.md, meta.json).
 """
 import json
@@ -13,8 +14,8 @@ import subprocess
 import sys
 import time
 
-ENV = dict(os.environ, GOFLAGS='-mod=mod', GOPROXY='off', GOSUMDB='off', GOTOOLCHAIN='local')
-SCRATCH = '/tmp/wt/confirm'
+SCRATCH = '/tmp/mx/confirm-%d' % os.getpid()
+ENV = dict(os.environ, GOFLAGS='-mod=mod', GOPROXY='off', GOSUMDB='off', GOTOOLCHAIN='local', VERIF_REPO=SCRATCH)
 
 
 def sh(cmd, cwd=None, timeout=1800):
@@ -42,6 +43,7 @@ def main():
         rc, out = sh('git apply %s' % os.path.abspath(patch), cwd=SCRATCH)
         if rc:
             print('patch does not apply:', out)
+            sh('git -C /repo worktree remove --force %s' % SCRATCH)
             return 2
         rcb, outb = sh('go build ./... 2>&1 | tail -5', cwd=SCRATCH)
         rc1, out1 = sh('go test -vet=off -count=1 ./... 2>&1 | tail -8', cwd=SCRATCH)
@@ -54,32 +56,23 @@ def main():
         print('CONFIRM demo_passes_on_HEAD=%s suite_passes_with_patch=%s demo_fails_with_patch=%s' % (clean_ok, suite_ok, demo_fails))
         if not (clean_ok and suite_ok and demo_fails):
             print(out0[-600:], out1[-600:], out2[-900:])
-    finally:
+    except Exception:
         sh('git -C /repo worktree remove --force %s' % SCRATCH)
+        raise
     ok = meta['confirmed']['demo_passes_on_HEAD'] and meta['confirmed']['suite_passes_with_patch'] and meta['confirmed']['demo_fails_with_patch']
-    # ---- 2. run the checks against the mutant
+    # ---- 2. run the checks against the mutant (still applied in the scratch worktree; the demonstration test is removed again)
     results = {}
-    if ok:
-        rc, out = sh('git -C /repo status --porcelain')
-        if out.strip():
-            print('/repo is not clean, refusing to apply')
-            return 2
-        rc, out = sh('git -C /repo apply %s' % os.path.abspath(patch))
-        if rc:
-            print('cannot apply to /repo', out)
-            return 2
-        try:
+    try:
+        if ok:
+            os.remove(os.path.join(SCRATCH, 'zz_demo_test.go'))
             for p in props:
                 t0 = time.time()
                 rc, out = sh('./check %s --tier %s' % (p, tier), cwd='/verif', timeout=3600)
                 viol = [l for l in out.splitlines() if l.startswith('VIOLATION') or l.startswith('  what:')]
                 results[p] = {'exit': rc, 'wall_s': round(time.time() - t0, 1), 'violations': viol[:6]}
                 print('CHECK %s exit=%d (%.0fs) %s' % (p, rc, time.time() - t0, viol[1][:260] if len(viol) > 1 else ''))
-        finally:
-            sh('git -C /repo checkout -- .')
-            rc, out = sh('git -C /repo status --porcelain')
-            if out.strip():
-                print('WARNING: /repo not clean after undo:', out)
+    finally:
+        sh('git -C /repo worktree remove --force %s' % SCRATCH)
     meta['check_results'] = results
     meta['detected_by'] = [p for p, r in results.items() if r['exit'] == 1]
     # ---- 3. keep it
